@@ -385,6 +385,17 @@ def _cutoff(ctx, model):
     period = fold(tev["args"][0]) if tev["args"] else None
     okp = period is not None and is_const(period) and isinstance(period[1], (int, float)) \
         and period[1] > 0
+    from .shared import config_option
+    pcfg = config_option(period) if period is not None else None
+    if pcfg is not None:
+        # an option: its default is checked; that the option parser admits only
+        # positive values is not decided here
+        d = fold(pcfg[1]) if pcfg[1] is not None else None
+        okp = d is None or (is_const(d) and (d[1] is None or (
+            isinstance(d[1], (int, float)) and d[1] > 0)))
+        period = d if (d is not None and is_const(d) and d[1] is not None) else None
+        ctx.note("the sweep period is the option %r (default %s): only the default is "
+                 "checked" % (pcfg[0], show(d) if d is not None else "none"))
     ctx.ob("R12.cutoff", "sweep period is a positive constant", okp, tev,
            "" if okp else "period is %s" % show(period))
     n = 0
@@ -402,8 +413,22 @@ def _cutoff(ctx, model):
                     old = a[1]
                     if old[0] == "binop" and old[1] == "-" and old[2] == a[0]:
                         c = fold(old[3])
-                        if is_const(c) and isinstance(c[1], (int, float)):
-                            if c[1] > 0 and okp and c[1] > period[1]:
+                        ccfg = config_option(c)
+                        if ccfg is not None or (pcfg is not None and is_const(c)):
+                            # C and / or the period are options: the defaults are
+                            # compared; the relation between given values is the
+                            # option parser's business and is not decided
+                            dc = fold(ccfg[1]) if (ccfg and ccfg[1] is not None) else (
+                                c if is_const(c) else None)
+                            if dc is not None and is_const(dc) and \
+                                    isinstance(dc[1], (int, float)) and period is not None:
+                                ok = dc[1] > 0 and dc[1] > period[1]
+                                why = "default expiration time %s is not larger than the " \
+                                    "default sweep period %s" % (dc[1], period[1])
+                            else:
+                                ok = True
+                        elif is_const(c) and isinstance(c[1], (int, float)):
+                            if c[1] > 0 and okp and period is not None and c[1] > period[1]:
                                 ok = True
                             else:
                                 why = "expiration time %s is not larger than the sweep " \
